@@ -237,11 +237,11 @@ def Ctx.step (c : Ctx) (line : String) : Ctx :=
     match s.spawn wiI (u64 off) with
     | .error p =>
       let c := if resp != "panic:" ++ showPanic p then c.fail "CORR" s!"spawn: model panic {showPanic p} impl {resp}" else c
-      endCase (c.fail "PROP" s!"C04+C13+SPEC+C12 SpawnWarrior({wi},{off}) {resp}")
+      endCase (c.fail "PROP" s!"C04+C13+SPEC+C12+C15 SpawnWarrior({wi},{off}) {resp}")
     | .ok (s', okb) =>
       let want := if okb then "ok" else "err"
       let c := if resp != want then c.fail "CORR" s!"spawn: model {want} impl {resp}" else c
-      if implEnded then endCase (c.fail "PROP" s!"C04+C13+SPEC+C12 SpawnWarrior({wi},{off}) {resp}") else
+      if implEnded then endCase (c.fail "PROP" s!"C04+C13+SPEC+C12+C15 SpawnWarrior({wi},{off}) {resp}") else
       let c := if c.ex.specOn then
           match c.st.spec.spawn wiI (natD off) with
           | some sp =>
@@ -262,10 +262,10 @@ def Ctx.step (c : Ctx) (line : String) : Ctx :=
     match s.runCycle with
     | .error p =>
       let c := if resp != "panic:" ++ showPanic p then c.fail "CORR" s!"RunCycle: model panic {showPanic p} impl {resp}" else c
-      endCase (c.fail "PROP" s!"C04+C13+SPEC+C12 RunCycle {resp}")
+      endCase (c.fail "PROP" s!"C04+C13+SPEC+C12+C15 RunCycle {resp}")
     | .ok (s', ret) =>
       let c := if resp != toString ret then c.fail "CORR" s!"RunCycle: model {ret} impl {resp}" else c
-      if implEnded then endCase (c.fail "PROP" s!"C04+C13+SPEC+C12 RunCycle {resp}") else
+      if implEnded then endCase (c.fail "PROP" s!"C04+C13+SPEC+C12+C15 RunCycle {resp}") else
       let (c, evs) := if c.ex.specOn then
           let (sp, evs, sret) := c.st.spec.cycle
           let c := if resp != toString sret then c.fail "PROP" s!"SPEC RunCycle returned {resp}, reference {sret}" else c
@@ -282,13 +282,13 @@ def Ctx.step (c : Ctx) (line : String) : Ctx :=
     match s.runLoop (min (s.maxCycles.toNat + 2) horizon) with
     | .error p =>
       let c := if resp != "panic:" ++ showPanic p then c.fail "CORR" s!"Run: model panic {showPanic p} impl {resp}" else c
-      endCase (c.fail "PROP" s!"C04+C13+SPEC+C12 Run {resp}")
+      endCase (c.fail "PROP" s!"C04+C13+SPEC+C12+C15 Run {resp}")
     | .ok (s', fin) =>
       let want := if !fin then "timeout"
         else if s'.warriors.size == 0 then "nil"
         else ",".intercalate (s'.results.map (fun b => if b then "1" else "0"))
       let c := if resp != want then c.fail "CORR" s!"Run: model {want} impl {resp}" else c
-      if implEnded then endCase (c.fail "PROP" s!"C04+C13+SPEC+C12 Run {resp}") else
+      if implEnded then endCase (c.fail "PROP" s!"C04+C13+SPEC+C12+C15 Run {resp}") else
       let (c, evs) := if c.ex.specOn then
           let (sp, evs) := c.st.spec.run (min (c.st.spec.C + 2) horizon)
           let swant := if sp.ws.isEmpty then "nil"
@@ -300,7 +300,7 @@ def Ctx.step (c : Ctx) (line : String) : Ctx :=
   | ["T"] =>
     let s' := s.reset
     let c := { c with st := { c.st with spec := c.st.spec.reset } }
-    if implEnded then endCase (c.fail "PROP" s!"C04+C13+SPEC+C12 Reset {resp}") else
+    if implEnded then endCase (c.fail "PROP" s!"C04+C13+SPEC+C12+C15 Reset {resp}") else
     let c := c.observe s' obs []
     -- C15: after a reset every address is empty
     if c.ex.implRec.any (fun e => e != (0, -1)) then c.fail "PROP" "C15 recorder not empty after Reset" else c
@@ -309,7 +309,7 @@ def Ctx.step (c : Ctx) (line : String) : Ctx :=
     | .error p => endCase (c.fail "PROP" s!"C13 GetMem panics in the model ({showPanic p}), impl {resp}")
     | .ok cell =>
       let c := if resp != showCell cell then c.fail "CORR" s!"GetMem({a}): model {showCell cell} impl {resp}" else c
-      if implEnded then endCase (c.fail "PROP" s!"C04+C13+SPEC+C12 GetMem({a}) {resp}") else
+      if implEnded then endCase (c.fail "PROP" s!"C04+C13+SPEC+C12+C15 GetMem({a}) {resp}") else
       if c.ex.specOn then
         let want := showSCell (c.st.spec.core.getD (natD a % c.st.spec.M) default)
         if resp != want then c.fail "PROP" s!"SPEC GetMem({a}) = {resp}, reference {want}" else c
